@@ -84,7 +84,8 @@ func c13GraphModelTwinNoID() *openfgav1.AuthorizationModel {
 		{Name: "user"}, {Name: "group", Rels: []ref.Relation{{Name: "member", Rw: ref.T(), Restr: []ref.Restriction{{Type: "user", Wildcard: true}}}}},
 		{Name: "doc", Rels: []ref.Relation{
 			{Name: "viewer", Rw: ref.I(ref.T(), ref.C("blocked")), Restr: []ref.Restriction{{Type: "user", Condition: "k"}, {Type: "group", Relation: "member"}}},
-			{Name: "editor", Rw: ref.U(ref.T(), ref.TT("editor", "parent")), Restr: []ref.Restriction{{Type: "group", Relation: "member"}}},
+			{Name: "editor", Rw: ref.U(ref.T(), ref.TT("editor", "parent"), ref.TT("owner", "parent")), Restr: []ref.Restriction{{Type: "group", Relation: "member"}}},
+			{Name: "owner", Rw: ref.T(), Restr: []ref.Restriction{{Type: "user"}}}, // a relation the other model's doc does not have
 			{Name: "blocked", Rw: ref.C("editor")},
 			{Name: "parent", Rw: ref.T(), Restr: []ref.Restriction{{Type: "doc"}, {Type: "doc", Condition: "k"}}},
 		}},
